@@ -309,7 +309,7 @@ fn compact_total_marker<const N: usize>(lowres: bool, marker: u32) {
 #[kani::proof]
 #[kani::unwind(14)]
 #[kani::stub(alloc::fmt::format, fmt_stub)]
-#[kani::stub(<[u64]>::sort_unstable, sort_noop)]
+#[kani::stub(core::slice::sort::unstable::sort, sort_inner_small)]
 #[kani::stub(a5::core::serialization::get_resolution, res_stub)]
 pub fn c14_compact_any4() {
     compact_total::<4>(false);
@@ -320,7 +320,7 @@ pub fn c14_compact_any4() {
 #[kani::proof]
 #[kani::unwind(14)]
 #[kani::stub(alloc::fmt::format, fmt_stub)]
-#[kani::stub(<[u64]>::sort_unstable, sort_noop)]
+#[kani::stub(core::slice::sort::unstable::sort, sort_inner_small)]
 #[kani::stub(a5::core::serialization::get_resolution, res_stub)]
 pub fn c14_compact_lowres5() {
     compact_total::<5>(true);
@@ -331,7 +331,7 @@ pub fn c14_compact_lowres5() {
 #[kani::proof]
 #[kani::unwind(14)]
 #[kani::stub(alloc::fmt::format, fmt_stub)]
-#[kani::stub(<[u64]>::sort_unstable, sort_noop)]
+#[kani::stub(core::slice::sort::unstable::sort, sort_inner_small)]
 #[kani::stub(a5::core::serialization::get_resolution, res_stub)]
 pub fn c14_compact_r1_clean5() {
     compact_total_class::<5>(false, true);
@@ -342,7 +342,7 @@ pub fn c14_compact_r1_clean5() {
 #[kani::proof]
 #[kani::unwind(14)]
 #[kani::stub(alloc::fmt::format, fmt_stub)]
-#[kani::stub(<[u64]>::sort_unstable, sort_noop)]
+#[kani::stub(core::slice::sort::unstable::sort, sort_inner_small)]
 #[kani::stub(a5::core::serialization::get_resolution, res_stub)]
 pub fn c14_compact_r2_clean4() {
     compact_total_marker::<4>(false, 55);
